@@ -386,3 +386,24 @@ package commands
 //@     after call commands.listObjectsRequest.GetContext returning s : cxC = true ; cx = s
 //@     after call commands.listObjectsRequest.GetConsistency returning s : consC = true ; cons = s
 //@     before call (*reverseexpand.ReverseExpandQuery).Execute args _, _, r, ch, md : assert r != nil && sidC && r.StoreID == sid && ctsC && r.ContextualTuples == cts.GetTupleKeys() && cxC && r.Context == cx && consC && r.Consistency == cons && r.ObjectType == deref(targetObjectType) && r.Relation == deref(targetRelation)
+
+// ------------------------------------------------------------------ ListStores (C26, C14)
+// "ListStores returns only stores the caller may get": storeIDs is nil when access control is off (no restriction) and
+// the list of accessible store ids when it is on; an EMPTY list means the caller may get no store, so nothing may be
+// listed (the backends treat an empty id list as "no filter"). Otherwise the backend is asked for exactly these ids,
+// this name filter, this page size and the decoded token, and its stores are returned with the re-encoded token.
+//@ func (*ListStoresQuery).Execute(q, ctx, req, storeIDs) (res, err)
+//@   property C26 C14
+//@   option nosafety
+//@   option stable req
+//@   ensures @noAccessListsNothing storeIDs != nil && len(storeIDs) == 0 && res != nil ==> len(res.Stores) == 0 && !listed
+//@   ensures @backendStores listed && res != nil ==> listErr == nil && res.Stores == got
+//@   monitor filter
+//@     ghost decodedOK = false
+//@     ghost tokenStr string = ""
+//@     ghost listed = false
+//@     ghost got []*openfgav1.Store = got
+//@     ghost listErr error = nil
+//@     after call encoder.Encoder.Decode returning b, e : decodedOK = e == nil ; tokenStr = bytes(b)
+//@     before call storage.StoresBackend.ListStores args _, _, o : assert decodedOK && o.IDs == storeIDs && o.Name == req.GetName()
+//@     after call storage.StoresBackend.ListStores returning s, t, e : listed = true ; got = s ; listErr = e
